@@ -161,6 +161,43 @@ def h_ovi(B, nkeys):
     B.eq("the sample average equals the expansion point", list(full.sum(axis=0) / (2 * nkeys)), list(pos))
 
 
+def h_ovi_pe(B, frozen):
+    """OptimizeVI.draw_samples with point estimates: linear_resample followed by nonlinear_update (the driver's own
+    sequence of sample modes); model d ~ N(ra a exp(b), 1/s^2) is linear in a"""
+    import importlib
+    opt = importlib.import_module("nifty.re.optimize")
+    J = jft()
+    ra, d, s = B.reals("ra", ()), B.reals("d", (1,)), B.reals("s", ())
+    B.assume(s > 0)
+    pos = {"a": B.reals("pa", (1,)), "b": B.reals("pb", (1,))}
+    xi = B.reals("xi", (2,))
+    liquid = "a" if frozen == "b" else "b"
+
+    def run(ra, d, s, pos, xi):
+        lh = J.Gaussian(d, noise_cov_inv=lambda x: s * s * x, noise_std_inv=lambda x: s * x).amend(
+            lambda x: ra * x["a"] * jnp.exp(x["b"]), domain={"a": jax.ShapeDtypeStruct((1,), jnp.float64), "b": jax.ShapeDtypeStruct((1,), jnp.float64)})
+        ovi = J.OptimizeVI(lh, 1, jit=False, linear_minimizer_jit=False, nonlinear_minimizer_jit=False, residual_map=_seqmap)
+        noise = [xi[:1], J.Vector((xi[1:],))]
+        key = jax.random.PRNGKey(3)
+        start = J.Samples(pos=J.Vector(pos), samples=None, keys=None)
+        with white_noise(noise + noise + noise):
+            lin, _ = ovi.draw_samples(start, key=key, sample_mode="linear_resample", n_samples=1, point_estimates=(frozen,),
+                                      draw_linear_kwargs=dict(cg=_solve_tree))
+            upd, _ = ovi.draw_samples(lin, key=key, sample_mode="nonlinear_update", n_samples=1, point_estimates=(frozen,),
+                                      nonlinearly_update_kwargs=dict(minimize=opt._static_newton_cg,
+                                                                     minimize_kwargs={"maxiter": 1, "cg_kwargs": {"maxiter": 1, "miniter": 0},
+                                                                                      "energy_reduction_factor": None}))
+        return lin._samples.tree, upd._samples.tree
+    lin, upd = jcall(B, run, ra, d, s, pos, xi, while_bound=12, fork=True)
+    for nm, smp in (("linear_resample", lin), ("nonlinear_update", upd)):
+        B.eq(f"{nm}: the point-estimated key '{frozen}' has zero residuals in every sample", list(np.asarray(smp[frozen], dtype=object).reshape(-1)), [0, 0])
+        r = np.asarray(smp[liquid], dtype=object).reshape(-1)
+        B.eq(f"{nm}: the mirrored residual of '{liquid}' is the exact negative", [r[1]], [-r[0]])
+    if liquid == "a":
+        B.eq("model linear in the liquid key: nonlinear_update leaves the linear residuals unchanged",
+             list(np.asarray(upd[liquid], dtype=object).reshape(-1)), list(np.asarray(lin[liquid], dtype=object).reshape(-1)))
+
+
 def h_geo(B, ndata, part):
     """linear model: the nonlinear update (one compiled Newton-CG iteration) returns the linear sample"""
     import importlib
@@ -204,16 +241,18 @@ def scenarios(tier, seed):
              ("pe", {"frozen": "b"}),
              ("pe", {"frozen": "a"}),
              ("ovi", {"nkeys": 1}),
+             ("ovi_pe", {"frozen": "b"}),
              ("geo", {"ndata": 1, "part": "grad"}),
              ("geo", {"ndata": 1, "part": "newton"})]
     thorough = [("cov", {"kind": "gauss_exp", "ndata": 2}),
                 ("ovi", {"nkeys": 2}),
+                ("ovi_pe", {"frozen": "a"}),
                 ("geo", {"ndata": 2, "part": "grad"}),
                 ("geo", {"ndata": 2, "part": "newton"})]
     return quick if tier == "quick" else quick + thorough
 
 
-HARNESSES = {"cov": h_cov, "pe": h_pe, "ovi": h_ovi, "geo": h_geo}
+HARNESSES = {"cov": h_cov, "pe": h_pe, "ovi": h_ovi, "ovi_pe": h_ovi_pe, "geo": h_geo}
 OPTS = {"quick": {"max_paths": 400, "budget_s": 600, "jobs": 8, "branch_timeout_ms": 20000, "obl_timeout_ms": 120000},
         "thorough": {"max_paths": 2000, "budget_s": 2400, "jobs": 8, "branch_timeout_ms": 30000, "obl_timeout_ms": 300000}}
 
